@@ -10,6 +10,11 @@ Mutating steps: sets  UPDATE k True / False;  maps  UPDATE k (Some v) / None, GE
 Literals: PUSH (set t) / (map t nat) of every key sequence of length 0..3 over the universe is accepted iff the
 keys are strictly increasing, and then has exactly that content.
 Prefix-sharing depth-first walk: SetType / MapType operations return new objects; the harness never mutates one.
+
+Map VALUE types (kind 'map' = nat values, 'map:<vt>' = another value type of VALTYPES): the collection code must treat a
+stored value as opaque, in particular it must not take a FALSY value ("" / False / an empty list, whose Micheline `[]` is
+falsy as well) for an absent one.  nat values are never falsy in Python, so 'map:string' / 'map:bool' / 'map:list' histories
+store, overwrite, read back and remove falsy values (literal entries, written values and the results of MAP).
 """
 from __future__ import annotations
 
@@ -52,6 +57,21 @@ for _n, (_t, _ks) in UNIVERSES.items():
     assert O.strictly_increasing(_t, _ks), f'universe {_n} is not in increasing order for the oracle'
 
 
+# value types of maps: (type, literal value of key i, value written at history step s, MAP body, its effect on a value)
+VALTYPES = {
+    'nat': (('nat',), lambda i: 100 + i, lambda s: 10 + s,
+            [{'prim': 'CDR'}, {'prim': 'PUSH', 'args': [{'prim': 'nat'}, {'int': '1'}]}, {'prim': 'ADD'}], lambda v: v + 1),
+    # "" at even positions / steps; MAP { DROP; PUSH string "" } makes every value falsy
+    'string': (('string',), lambda i: '' if i % 2 == 0 else f'v{i}', lambda s: '' if s % 2 == 0 else f'n{s}',
+               [{'prim': 'DROP'}, {'prim': 'PUSH', 'args': [{'prim': 'string'}, {'string': ''}]}], lambda v: ''),
+    # False at odd positions / even steps; MAP { CDR; NOT } flips
+    'bool': (('bool',), lambda i: i % 2 == 0, lambda s: s % 2 == 1, [{'prim': 'CDR'}, {'prim': 'NOT'}], lambda v: not v),
+    # {} (Micheline [] — falsy itself) at even positions / steps; MAP { CDR; PUSH nat 7; CONS } makes every value non-empty
+    'list': (('list', ('nat',)), lambda i: () if i % 2 == 0 else (i,), lambda s: () if s % 2 == 0 else (s, s),
+             [{'prim': 'CDR'}, {'prim': 'PUSH', 'args': [{'prim': 'nat'}, {'int': '7'}]}, {'prim': 'CONS'}], lambda v: (7,) + tuple(v)),
+}
+
+
 def type_expr(t):
     if len(t) == 1:
         return {'prim': t[0]}
@@ -80,30 +100,38 @@ class Env:
         from pytezos.context.impl import ExecutionContext
         from pytezos.michelson.instructions.base import MichelsonInstruction
         from pytezos.michelson.types.base import MichelsonType
-        self.uni, self.kind = uni, kind             # kind: 'set' | 'map'
+        self.kind_full = kind                       # 'set' | 'map' | 'map:<value type>'
+        kind, _, vt = kind.partition(':')
+        self.uni, self.kind, self.vt = uni, kind, vt or 'nat'
+        self.t_val, self.lit_val, self.new_val, map_body, self.map_fn = VALTYPES[self.vt]
+        self.vt_expr = type_expr(self.t_val)
         self.t_key, self.keys = UNIVERSES[uni]
         self.n = len(self.keys)
         self.key_expr = [R.data_to_micheline(self.t_key, k) for k in self.keys]
         self.kt = type_expr(self.t_key)
-        self.coll_type = {'prim': 'set', 'args': [self.kt]} if kind == 'set' else {'prim': 'map', 'args': [self.kt, {'prim': 'nat'}]}
+        self.coll_type = {'prim': 'set', 'args': [self.kt]} if kind == 'set' else {'prim': 'map', 'args': [self.kt, self.vt_expr]}
         self.ctx = ExecutionContext()
         self.K = MichelsonType.match(self.kt)
-        self.V = MichelsonType.match({'prim': 'nat'})
+        self.V = MichelsonType.match(self.vt_expr)
         self.B = MichelsonType.match({'prim': 'bool'})
         self.key_objs = [self.K.from_micheline_value(e) for e in self.key_expr]
         self.true, self.false = self.B.from_micheline_value({'prim': 'True'}), self.B.from_micheline_value({'prim': 'False'})
-        self.sentinel = self.V.from_micheline_value({'int': '7777'})
+        self.sentinel = MichelsonType.match({'prim': 'nat'}).from_micheline_value({'int': '7777'})
         m = MichelsonInstruction.match
         self.I = {p: m({'prim': p}) for p in ('UPDATE', 'GET', 'MEM', 'GET_AND_UPDATE', 'SIZE')}
-        elt_t = self.kt if kind == 'set' else {'prim': 'pair', 'args': [self.kt, {'prim': 'nat'}]}
+        elt_t = self.kt if kind == 'set' else {'prim': 'pair', 'args': [self.kt, self.vt_expr]}
         self.nil = m({'prim': 'NIL', 'args': [elt_t]})
         self.iter = m({'prim': 'ITER', 'args': [[{'prim': 'CONS'}]]})
-        self.mapi = m({'prim': 'MAP', 'args': [[{'prim': 'CDR'}, {'prim': 'PUSH', 'args': [{'prim': 'nat'}, {'int': '1'}]}, {'prim': 'ADD'}]]})
-        self.empty = m({'prim': 'EMPTY_SET', 'args': [self.kt]}) if kind == 'set' else m({'prim': 'EMPTY_MAP', 'args': [self.kt, {'prim': 'nat'}]})
+        self.mapi = m({'prim': 'MAP', 'args': [map_body]})
+        self.empty = m({'prim': 'EMPTY_SET', 'args': [self.kt]}) if kind == 'set' else m({'prim': 'EMPTY_MAP', 'args': [self.kt, self.vt_expr]})
         self.match = m
 
-    def val(self, n):
-        return self.V.from_micheline_value({'int': str(n)})
+    def vexpr(self, v):
+        """Micheline of a value of the map's value type (spec notation)"""
+        return R.data_to_micheline(self.t_val, v)
+
+    def val(self, v):
+        return self.V.from_micheline_value(self.vexpr(v))
 
     def stack(self, items):
         from pytezos.michelson.stack import MichelsonStack
@@ -119,10 +147,10 @@ class Env:
         assert len(st.items) == n_out + 1 and st.items[-1] is self.sentinel, f'{ins.prim}: stack shape {len(st.items)}'
         return st.items[:n_out]
 
-    def literal_expr(self, idxs, base=100):
+    def literal_expr(self, idxs):
         if self.kind == 'set':
             return [self.key_expr[i] for i in idxs]
-        return [{'prim': 'Elt', 'args': [self.key_expr[i], {'int': str(base + i)}]} for i in idxs]
+        return [{'prim': 'Elt', 'args': [self.key_expr[i], self.vexpr(self.lit_val(i))]} for i in idxs]
 
     def push_literal(self, idxs):
         ins = self.match({'prim': 'PUSH', 'args': [self.coll_type, self.literal_expr(idxs)]})
@@ -132,16 +160,21 @@ class Env:
         if mask == 'empty':
             return self.run(self.empty, [], 1)[0], {}
         idxs = [i for i in range(self.n) if mask >> i & 1]
-        return self.push_literal(idxs), {i: (True if self.kind == 'set' else 100 + i) for i in idxs}
+        return self.push_literal(idxs), {i: (True if self.kind == 'set' else self.lit_val(i)) for i in idxs}
 
 
 def ref_content(env, ref):
-    return env.literal_expr(sorted(ref), base=None) if env.kind == 'set' else \
-        [{'prim': 'Elt', 'args': [env.key_expr[i], {'int': str(ref[i])}]} for i in sorted(ref)]
+    return env.literal_expr(sorted(ref)) if env.kind == 'set' else \
+        [{'prim': 'Elt', 'args': [env.key_expr[i], env.vexpr(ref[i])]} for i in sorted(ref)]
 
 
-def _opt(v):
-    return {'prim': 'None'} if v is None else {'prim': 'Some', 'args': [{'int': str(v)}]}
+def _opt(env, v):
+    return {'prim': 'None'} if v is None else {'prim': 'Some', 'args': [env.vexpr(v)]}
+
+
+def _norm(v):
+    """values of the spec in one shape (sequences as tuples) so that observed and reference values compare"""
+    return tuple(_norm(x) for x in v) if isinstance(v, (list, tuple)) else v
 
 
 def _parse_entries(env, exprs, as_pairs=False):
@@ -151,11 +184,11 @@ def _parse_entries(env, exprs, as_pairs=False):
         if env.kind == 'set':
             out.append((R.parse_data(env.t_key, e), True))
         elif as_pairs:
-            k, v = R.parse_data(R.pair_t(env.t_key, ('nat',)), e)
-            out.append((k, v))
+            k, v = R.parse_data(R.pair_t(env.t_key, env.t_val), e)
+            out.append((k, _norm(v)))
         else:
             assert e.get('prim') == 'Elt' and len(e['args']) == 2, f'not an Elt: {e}'
-            out.append((R.parse_data(env.t_key, e['args'][0]), R.parse_data(('nat',), e['args'][1])))
+            out.append((R.parse_data(env.t_key, e['args'][0]), _norm(R.parse_data(env.t_val, e['args'][1]))))
     return out
 
 
@@ -163,7 +196,7 @@ def observe(env, coll, ref):
     """complete observation of the real collection against the reference; returns (clause, why, detail) or None"""
     got_expr = coll.to_micheline_value()
     got = _parse_entries(env, got_expr)
-    want = [(env.keys[i], ref[i]) for i in sorted(ref)]
+    want = [(env.keys[i], _norm(ref[i])) for i in sorted(ref)]
     if got != want:
         idx = [env.keys.index(k) if k in env.keys else None for k, _ in got]
         if None in idx:
@@ -186,8 +219,8 @@ def observe(env, coll, ref):
             return 'MEM', 'wrong membership answer', f'MEM {env.key_expr[i]} gives {r}, reference {i in ref}'
         if env.kind == 'map':
             r = env.run(env.I['GET'], [env.key_objs[i], coll], 1)[0].to_micheline_value()
-            if r != _opt(ref.get(i)):
-                return 'GET', 'wrong value', f'GET {env.key_expr[i]} gives {r}, reference {_opt(ref.get(i))}'
+            if r != _opt(env, ref.get(i)):
+                return 'GET', 'wrong value', f'GET {env.key_expr[i]} gives {r}, reference {_opt(env, ref.get(i))}'
     lst = env.run(env.nil, [], 1)[0]
     out = env.run(env.iter, [coll, lst], 1)[0].to_micheline_value()
     visited = list(reversed(_parse_entries(env, out, as_pairs=True)))
@@ -200,7 +233,7 @@ def step(env, coll, ref, sym, stepno):
     """returns (clause, why, detail) on failure, else (coll', ref')"""
     op, i = sym
     ref2 = dict(ref)
-    newval = 10 + stepno
+    newval = env.new_val(stepno) if env.kind == 'map' else None
     if op in ('ADD', 'DEL'):
         coll2 = env.run(env.I['UPDATE'], [env.key_objs[i], env.true if op == 'ADD' else env.false, coll], 1)[0]
         if op == 'ADD':
@@ -209,7 +242,7 @@ def step(env, coll, ref, sym, stepno):
             ref2.pop(i, None)
     elif op == 'MAP':
         coll2 = env.run(env.mapi, [coll], 1)[0]
-        ref2 = {k: v + 1 for k, v in ref.items()}
+        ref2 = {k: env.map_fn(v) for k, v in ref.items()}
     else:
         from pytezos.michelson.types import OptionType
         ov = OptionType.from_some(env.val(newval)) if op.endswith('+') else OptionType.none(env.V)
@@ -217,9 +250,9 @@ def step(env, coll, ref, sym, stepno):
             coll2 = env.run(env.I['UPDATE'], [env.key_objs[i], ov, coll], 1)[0]
         else:
             prev, coll2 = env.run(env.I['GET_AND_UPDATE'], [env.key_objs[i], ov, coll], 2)
-            if prev.to_micheline_value() != _opt(ref.get(i)):
+            if prev.to_micheline_value() != _opt(env, ref.get(i)):
                 return 'GET_AND_UPDATE.previous', 'wrong previous value', \
-                    f'GET_AND_UPDATE {env.key_expr[i]} returned {prev.to_micheline_value()}, reference {_opt(ref.get(i))}'
+                    f'GET_AND_UPDATE {env.key_expr[i]} returned {prev.to_micheline_value()}, reference {_opt(env, ref.get(i))}'
         if op.endswith('+'):
             ref2[i] = newval
         else:
@@ -237,13 +270,13 @@ def walk(env, mask, prefix, max_len, syms, out, counters):
         coll, ref = env.initial(mask)
     except Exception as e:
         out.append(dict(clause='literal.accepts', why='sorted literal rejected', detail=f'initial literal: {type(e).__name__}: {e}',
-                        uni=env.uni, kind=env.kind, mask=mask, hist=[]))
+                        uni=env.uni, kind=env.kind_full, mask=mask, hist=[]))
         return
     counters['nodes'] += 1
     if not prefix:
         o = observe_safe(env, coll, ref)
         if o:
-            out.append(dict(clause=o[0], why=o[1], detail='initial collection: ' + o[2], uni=env.uni, kind=env.kind, mask=mask, hist=[]))
+            out.append(dict(clause=o[0], why=o[1], detail='initial collection: ' + o[2], uni=env.uni, kind=env.kind_full, mask=mask, hist=[]))
             return
     hist = []
     for sym in prefix:
@@ -270,13 +303,13 @@ def _do(env, coll, ref, sym, hist, mask, out, counters):
     except Exception as e:
         r = (f'{sym[0].rstrip("+-")}.raises', f'{sym[0].rstrip("+-")} raises {type(e).__name__}', f'{type(e).__name__}: {e}')
     if len(r) == 3:
-        out.append(dict(clause=r[0], why=r[1], detail=f'history {h2}: {r[2]}', uni=env.uni, kind=env.kind, mask=mask, hist=h2, last=sym[0]))
+        out.append(dict(clause=r[0], why=r[1], detail=f'history {h2}: {r[2]}', uni=env.uni, kind=env.kind_full, mask=mask, hist=h2, last=sym[0]))
         return None
     coll2, ref2 = r
     o = observe_safe(env, coll2, ref2)
     counters['observations'] += 1
     if o:
-        out.append(dict(clause=o[0], why=o[1], detail=f'after history {h2}: {o[2]}', uni=env.uni, kind=env.kind, mask=mask, hist=h2, last=sym[0]))
+        out.append(dict(clause=o[0], why=o[1], detail=f'after history {h2}: {o[2]}', uni=env.uni, kind=env.kind_full, mask=mask, hist=h2, last=sym[0]))
         return None
     return coll2, ref2
 
@@ -307,12 +340,12 @@ def check_literals(env, out, counters):
                                 why=f'{kind} literal {"accepted" if accepted else "rejected"}',
                                 detail=f'PUSH {env.kind} literal with keys {[env.key_expr[i] for i in idxs]}: '
                                        + ('accepted' if accepted else f'rejected ({err})'),
-                                uni=env.uni, kind=env.kind, mask=None, hist=[], literal=list(idxs)))
+                                uni=env.uni, kind=env.kind_full, mask=None, hist=[], literal=list(idxs)))
             elif accepted:
-                ref = {i: (True if env.kind == 'set' else 100 + i) for i in idxs}
+                ref = {i: (True if env.kind == 'set' else env.lit_val(i)) for i in idxs}
                 o = observe_safe(env, coll, ref)
                 if o:
-                    out.append(dict(clause=o[0], why=o[1], detail=f'literal {list(idxs)}: {o[2]}', uni=env.uni, kind=env.kind,
+                    out.append(dict(clause=o[0], why=o[1], detail=f'literal {list(idxs)}: {o[2]}', uni=env.uni, kind=env.kind_full,
                                     mask=None, hist=[], literal=list(idxs)))
 
 
@@ -331,7 +364,7 @@ def work(task):
     if literals:
         check_literals(env, out, counters)
     else:
-        syms = set_symbols(env.n) if kind == 'set' else map_symbols(env.n, with_map)
+        syms = set_symbols(env.n) if env.kind == 'set' else map_symbols(env.n, with_map)
         walk(env, mask, [tuple(s) for s in prefix], max_len, syms, out, counters)
     for x in out:
         x['wclass'] = wclass(x, env.t_key)
